@@ -71,6 +71,9 @@ fn main() {
     let rep = Report::new(id, tier, seed);
     let code = match id {
         "C03" => { vh::c03::check(&rep); rep.finish(vh::c03::RULE, vh::c03::ASSUME, &[]) }
+        "C04" => { vh::c04::check(&rep); rep.finish(vh::c04::RULE, vh::c04::ASSUME, vh::c04::SITUATIONS) }
+        "C15" => { vh::c15::check(&rep); rep.finish(vh::c15::RULE, vh::c15::ASSUME, vh::c15::SITUATIONS) }
+        "C06" => { vh::c06::check(&rep); rep.finish(vh::c06::RULE, vh::c06::ASSUME, vh::c06::SITUATIONS) }
         _ => { eprintln!("unknown property {}", id); 2 }
     };
     std::process::exit(code);
